@@ -471,6 +471,21 @@ class Duration(timedelta):
 
         return NotImplemented
 
+    def __reduce__(self) -> tuple[type[Self], tuple[int, ...]]:
+        # The native reduce only keeps days, seconds and microseconds:
+        # years and months would come back as days
+        return self.__class__, (
+            self._weeks * 7 + self._remaining_days,
+            self._seconds,
+            self._microseconds,
+            0,
+            0,
+            0,
+            0,
+            self._years,
+            self._months,
+        )
+
     def __deepcopy__(self, _: dict[int, Self]) -> Self:
         return self.__class__(
             weeks=self.weeks,
